@@ -106,9 +106,9 @@ fn lambert_w(x: f64) -> f64 {
     for _ in 0..64 {
         #[cfg(feature = "verif_hooks")]
         crate::verif_hooks::tick();
-        let exp_w = w.exp();
-        let f = w * exp_w - x;
-        let step = f / (exp_w * (w + 1.0) - (w + 2.0) * f / (2.0 * w + 2.0));
+        // Halley's step with e^w divided out: x * e^-w cannot overflow where w * e^w would
+        let f = w - x * (-w).exp();
+        let step = f / ((w + 1.0) - (w + 2.0) * f / (2.0 * w + 2.0));
         if !step.is_finite() {
             break;
         }
